@@ -1,10 +1,135 @@
 import PewDriver.Util
+import PewModel.Cli
 open Lean
 namespace PewDriver.C20
-open PewDriver
+open PewDriver Pew.Cli
 
-def handle (op : String) (_req : Json) : R Json := do
+def mkGrid (h w : Nat) (data : Array Tok) : Grid Tok :=
+  { h := h, w := w, get := fun i j => data.getD (i * w + j) 0 }
+
+def parsePath (j : Json) : R Path := do
+  pure { dir := ← getStr j "dir", stem := ← getStr j "stem", suffix := ← getStr j "suffix" }
+
+def parseCfg (j : Json) : R Cfg := do
+  match ← asArr j with
+  | [k, a, b, c] =>
+    if (← asStr k) != "raster" then throw "config: raster expected"
+    pure (.raster (← asInt a) (← asInt b) (← asInt c))
+  | [k, x, y] =>
+    if (← asStr k) != "spot" then throw "config: spot expected"
+    pure (.spot (← asInt x) (← asInt y))
+  | _ => throw "config: [\"raster\", s, v, t] or [\"spot\", x, y] expected"
+
+def parseSpot (j : Json) : R Spot := do
+  match j with
+  | .arr #[x, y] => pure (.two (← asInt x) (← asInt y))
+  | _ => pure (.one (← asInt j))
+
+def parseParams (j : Json) : R Params := do
+  match ← asArr j with
+  | [a, b, c] => pure { spotsize := ← asOpt parseSpot a, speed := ← asOpt asInt b, scantime := ← asOpt asInt c }
+  | _ => throw "params: three optional entries expected"
+
+def jCfg : Cfg → Json
+  | .raster a b c => .arr #[jStr "raster", jInt a, jInt b, jInt c]
+  | .spot x y => .arr #[jStr "spot", jInt x, jInt y]
+
+/-- per element: name and row-major tokens -/
+def parseFields (h w : Nat) (j : Json) : R (List (String × Array Tok)) := do
+  let fs ← asList (fun f => do
+    let nm ← getStr f "name"
+    let data ← getList asInt f "data"
+    if data.length ≠ h * w then throw s!"field {nm}: data/shape mismatch"
+    pure (nm, data.toArray)) j
+  pure fs
+
+def pxOf (w : Nat) (fs : List (String × Array Tok)) : Nat → Nat → Px := fun i j n =>
+  match fs.lookup n with
+  | some a => a.getD (i * w + j) 0
+  | none => 0
+
+structure InputX where
+  input : Input
+  /-- the library filter applied to every field of this input (only for the filter command) -/
+  filtered : Option (List (String × Array Tok))
+
+def parseInput (defaults : Tok × Tok × Tok) (j : Json) : R InputX := do
+  let path ← fld j "path" >>= parsePath
+  let present ← getBool j "exists"
+  let h ← getNat j "h"
+  let w ← getNat j "w"
+  let fs ← fld j "fields" >>= parseFields h w
+  -- `load`: an .npz carries its own config, every other format gets Config() + loader parameters
+  let config ← match ← (fld j "config" >>= asOpt parseCfg) with
+    | some c => pure c
+    | none => do
+      let p ← fld j "params" >>= parseParams
+      pure (configOf defaults.1 defaults.2.1 defaults.2.2 p)
+  let filtered ← fld j "filtered" >>= asOpt (parseFields h w)
+  pure { input := { path := path, present := present,
+                    laser := { elements := fs.map (·.1), data := { h := h, w := w, get := pxOf w fs }, config := config } },
+         filtered := filtered }
+
+def parseOrient (s : String) : R Orient :=
+  match s with
+  | "vertical" => pure .vertical
+  | "horizontal" => pure .horizontal
+  | _ => throw s!"bad orientation {s}"
+
+def jPath (p : Path) : Json := jStr p.full
+
+def jGrid (g : Grid Tok) : Json :=
+  jList (fun i => jList (fun j => jInt (g.get i j)) (List.range g.w)) (List.range g.h)
+
+def jFile (f : File) : Json :=
+  match f.content with
+  | .npz l =>
+    jObj [("path", jPath f.path), ("kind", jStr "npz"), ("elements", jList jStr l.elements),
+          ("shape", jList jNat [l.data.h, l.data.w]),
+          ("data", jList (fun e => jGrid (l.field e)) l.elements),
+          ("config", jCfg l.config)]
+  | .csv g =>
+    jObj [("path", jPath f.path), ("kind", jStr "csv"), ("shape", jList jNat [g.h, g.w]), ("data", jGrid g)]
+  | .vtk => jObj [("path", jPath f.path), ("kind", jStr "vtk")]
+
+def jResult (r : Result) : Json :=
+  jObj [("status", jStr (if r.status = .ok then "ok" else "error")), ("files", jList jFile r.files)]
+
+def handle (op : String) (req : Json) : R Json := do
   match op with
+  | "c20.run" =>
+    let defaults ← match ← getList asInt req "defaults" with
+      | [a, b, c] => pure (a, b, c)
+      | _ => throw "defaults: three tokens expected"
+    let xs ← getList (parseInput defaults) req "inputs"
+    let format ← getStr req "format"
+    let output ← fld req "output" >>= asOpt parsePath
+    let outIsDir ← getBool req "output_is_dir"
+    let isDir : Path → Bool := fun p => outIsDir && (some p == output)
+    let cmdName ← getStr req "cmd"
+    let cmd : Cmd ← match cmdName with
+      | "convert" => do
+        let cfg ← fld req "config" >>= asOpt parseCfg
+        let els ← fld req "elements" >>= asOpt (asList asStr)
+        pure (Cmd.convert cfg els)
+      | "filter" => do
+        let sel ← fld req "elements" >>= asOpt (asList asStr)
+        let tables := xs.toArray.map (·.filtered)
+        let f : Nat → String → Grid Tok → Grid Tok := fun k n g =>
+          match tables[k]? with
+          | some (some t) =>
+            match t.lookup n with
+            | some a => mkGrid g.h g.w a
+            | none => g
+          | _ => g
+        pure (Cmd.filter f sel)
+      | "stack" => do
+        let o ← getStr req "orientation" >>= parseOrient
+        let pad ← getInt req "pad"
+        pure (Cmd.stack o pad)
+      | _ => throw s!"bad cmd {cmdName}"
+    let a : Args := { cmd := cmd, inputs := xs.map (·.input), format := format, output := output, isDir := isDir }
+    pure (jObj [("model", jResult (run a)), ("spec", jResult (specRun a))])
   | _ => throw s!"unknown op {op}"
 
 end PewDriver.C20
